@@ -322,6 +322,19 @@ func c19Run(c *Ctx, cs c19Case, count bool) {
 		cd := CondAlias(stackage.Cond("kw", stackage.Eq, StackAlias(target)))
 		recv = stackage.And().Push(stackage.List().Push("z"), cd, sibling)
 		parentWant = contents(recv)
+	case "named-ptr": // declared pointer types (type StackRef *Stack, type CondRef *Condition): pointers like any other
+		t := target
+		recv = stackage.And().Push("p0", StackRef(&t), "p1")
+		parentWant = contents(recv)
+	case "named-ptr-cond":
+		cd := stackage.Cond("kw", stackage.Eq, target)
+		recv = stackage.Or().Push(CondRef(&cd), stackage.List().Push("z"))
+		parentWant = contents(recv)
+	case "ptr-to-named-ptr-alias":
+		a := StackAlias(target)
+		r := AliasRef(&a)
+		recv = stackage.And().Push(stackage.Cond("kw", stackage.Ne, &r), "p1")
+		parentWant = contents(recv)
 	case "in-cond-late-pointer": // the Condition was given a pointer to a Stack variable that was filled in afterwards
 		late := new(stackage.Stack)
 		cd := stackage.Cond("kw", stackage.Eq, late)
@@ -592,12 +605,12 @@ func c19Cases(c *Ctx) []c19Case {
 			if n > nestLen {
 				continue
 			}
-			for _, pl := range []string{"in-cond-late-pointer", "late-pointer", "late-pointer-alias"} {
+			for _, pl := range []string{"in-cond-late-pointer", "late-pointer", "late-pointer-alias", "named-ptr", "named-ptr-cond", "ptr-to-named-ptr-alias"} {
 				out = append(out, c19Case{Len: n, Mask: mask, Place: pl, Kind: "AND"})
 			}
 		}
 	}
-	for _, pl := range []string{"in-cond-late-pointer", "late-pointer", "late-pointer-alias"} {
+	for _, pl := range []string{"in-cond-late-pointer", "late-pointer", "late-pointer-alias", "named-ptr", "named-ptr-cond", "ptr-to-named-ptr-alias"} {
 		out = append(out, c19Case{Place: pl, Kind: "AND", Long: "1,1x0,1,1x0,1,1x0,1,1x0,1,1x0,1"}, c19Case{Place: pl, Kind: "LIST", Long: "1,5x0,1"})
 	}
 	// scan limits nobody would call small: "no limit" written as the largest int, and its neighbours
